@@ -75,6 +75,7 @@ func ruleC07(c *Ctx) {
 		fname := shortFn(da.Root)
 		nIter := 0
 		certStores := map[string]bool{}
+		traversalAlwaysRuns(c, "C07-R3", da, "EncryptedAssertion")
 		for _, t := range da.Terms {
 			for _, e := range t.St.events {
 				if e.Kind == EvIterEnter {
@@ -734,4 +735,35 @@ func leafOfReturned(t *Terminal, cert Val) string {
 	elemT := st.Field(idx).Type().Underlying().(*types.Slice).Elem()
 	leaf := en.load(t.St, mkIndexAddrCanon(cf, intV(0), elemT), elemT)
 	return ap(leaf)
+}
+
+// traversalAlwaysRuns: the direct-child requirement is enforced inside the traversal handler, so it only means something
+// if no path of fn returns success without having run the whole-tree traversal for <tag> over the element it was given
+// (a cheap pre-check that looks at direct children only would let nested elements through unexamined).
+func traversalAlwaysRuns(c *Ctx, rule string, res *Result, tag string) {
+	fname := shortFn(res.Root)
+	n := 0
+	for _, t := range res.Terms {
+		if !t.accepting(res.Root) {
+			continue
+		}
+		n++
+		ran := false
+		for _, e := range t.St.events {
+			if (e.Kind == EvCall || e.Kind == EvIterEnter) && len(e.Args) >= 3 {
+				if s, ok := constString(e.Args[2]); ok && s == tag && ap(e.Args[0]) == "$"+res.Root.Params[1].Name() {
+					ran = true
+				}
+			}
+		}
+		if ran {
+			c.ok(rule, fname, "every successful return has traversed the whole element for "+tag, c.P.InstrPos(t.Instr), "NSFindIterate over the parameter on this path")
+		} else {
+			o := c.bad(rule, fname, "every successful return has traversed the whole element for "+tag, c.P.InstrPos(t.Instr),
+				"a path returns success without running the "+tag+" traversal over the element: elements below the top level are never examined, so the direct-child rejection cannot fire")
+			o.Path = t.pathDesc(c.P)
+		}
+	}
+	c.count(rule+"/success-paths", n)
+	c.floor(rule+"/success-paths", 2)
 }
